@@ -2,6 +2,7 @@ import Driver.Util
 import Lattigo.Gen.ModRed
 import Lattigo.Gen.Butterfly
 import Lattigo.Gen.VecLanes
+import Lattigo.Gen.Automorphism
 import Lattigo.Model.BRedConst
 import Lattigo.Model.Vec
 import Lattigo.Model.NTT
@@ -41,14 +42,10 @@ def nttOp (kind : String) (T : NTT.Tables) (a : List Nat) : Option (List Nat) :=
   | "icilazy" => some (NTT.inttCILazy T a)
   | _ => none
 
-/-- `AutomorphismNTTIndex` (ring/automorphism.go) -/
-def autIndex (n nthRoot gal : Nat) : List Nat :=
-  let logNth := Nat.log2 nthRoot - 1   -- bits.Len64(NthRoot-1) - 1
-  let mask := nthRoot - 1
-  (List.range n).map fun i =>
-    let tmp1 := 2 * NTT.bitRev i logNth + 1
-    let tmp2 := (u64sub (u64and (u64mul gal tmp1) mask) 1) / 2
-    NTT.bitRev tmp2 logNth
+/-- `ring.AutomorphismNTTIndex`: the definition REGENERATED from ring/automorphism.go
+    (`Gen.AutomorphismNTTIndex`, closed form: `Props/C01Aut.lean: autIndex_spec`).  An error return
+    is printed as the empty table (the harness drops the error: `idx, _ := …`; `Vec(nil)` is `-`). -/
+def autIndex (n nthRoot gal : Nat) : List Nat := (AutomorphismNTTIndex n nthRoot gal).getD []
 
 def handle (toks : List String) : String :=
   match toks with
